@@ -1,7 +1,7 @@
 (* C03 — property theorems only. Each is closed by [exact] of a lemma proved in C03/Proofs*.v. *)
 From Coq Require Import List ZArith Bool String Lia.
 Import ListNotations.
-From AgileV Require Import C03.Model C03.ModelCnn C03.ModelNet C03.ModelMulti C03.Proofs C03.ProofsS C03.ProofsCnn C03.ProofsCnn2 C03.ProofsCnn3 C03.ProofsCnnFix C03.ProofsChains C03.ProofsNet C03.ProofsMulti C03.ProofsShape.
+From AgileV Require Import C03.Model C03.ModelCnn C03.ModelNet C03.ModelMulti C03.ModelMulti2 C03.ModelCnn3d C03.Proofs C03.ProofsS C03.ProofsCnn C03.ProofsCnn2 C03.ProofsCnn3 C03.ProofsCnnFix C03.ProofsChains C03.ProofsNet C03.ProofsMulti C03.ProofsMulti2 C03.ProofsShape C03.ProofsShapeCnn.
 Local Open Scope Z_scope.
 
 (* ======================= EvolvableMLP ======================= *)
@@ -461,6 +461,28 @@ Theorem rebuild_exact_multi : forall s c st m r1 r2,
 Proof. exact multi_rebuild_exact. Qed.
 Print Assumptions rebuild_exact_multi.
 
+(* EvolvableMultiInput with vector_space_mlp = True (Tuple / Dict spaces): every step is the step of the part it addresses
+   (latent width / image extractor, or the vector MLP), so the bounds of both parts are kept over every chain *)
+Theorem step_parts_multi_mlp : forall s c a m r1 r2,
+  let a' := arch_of (multi2_step s c a m r1 r2) in
+  match m with
+  | M2Core _ cm => m2_core a' = arch_of (multi_step (m2_base s) (m2_cfg c) (m2_core a) cm r1 r2) /\ m2_mlp a' = m2_mlp a
+  | M2Mlp hm => m2_mlp a' = arch_of (mlp_step (m2_mlp_cfg c) (m2_mlp a) hm r1 r2) /\ m2_core a' = m2_core a
+  end.
+Proof. exact multi2_step_parts. Qed.
+Print Assumptions step_parts_multi_mlp.
+
+Theorem bounds_chain_multi_mlp : forall s c,
+  1 <= c_min_layers (mu_cnn_cfg (m2_cfg c)) -> 1 <= m_min_layers (m2_mlp_cfg c) -> forall ops a,
+  Forall (fun o : multi2_op => multi2_meth_ok (fst (fst o))) ops -> multi2_in_bounds c a -> multi2_in_bounds c (multi2_run s c a ops).
+Proof. exact multi2_bounds_chain. Qed.
+Print Assumptions bounds_chain_multi_mlp.
+
+Theorem rebuild_exact_multi_mlp : forall s c st m r1 r2,
+  let st' := fst (fst (multi2_mutate s c st m r1 r2)) in multi2_built st' = multi2_shapes s (multi2_arch_of st').
+Proof. exact multi2_rebuild_exact. Qed.
+Print Assumptions rebuild_exact_multi_mlp.
+
 (* ======================= declared output shape ======================= *)
 (* shape-level forward pass of the linear / normalisation stacks: a batch [b; num_inputs] is mapped to
    [b; num_outputs] for EVERY architecture (any hidden sizes, any number of layers / blocks) *)
@@ -473,6 +495,25 @@ Theorem shape_out_simba : forall s a b,
   forward_shape (simba_shapes s a) [b; ss_in s] = Some [b; ss_out s].
 Proof. exact simba_forward_shape. Qed.
 Print Assumptions shape_out_simba.
+
+(* a batch [b; C; H; W] goes through the convolution stack, nn.Flatten and the final linear layer (whose in_features was fixed
+   when the module was built) for EVERY valid CNN architecture *)
+Theorem shape_out_cnn : forall st a b,
+  cnn_ok st a -> cnn_forward_shape st a [b; cs_in_ch st; cs_h st; cs_w st] = Some [b; cs_out st].
+Proof. exact cnn_forward_shape_ok. Qed.
+Print Assumptions shape_out_cnn.
+
+(* stacked LSTM layers (four gates each), last time step, output layer: [b; seq; input_size] -> [b; num_outputs] *)
+Theorem shape_out_lstm : forall s a b t,
+  1 <= s_layers a -> lstm_forward_shape (lstm_shapes s a) [b; t; ls_in s] = Some [b; ls_out s].
+Proof. exact lstm_forward_shape_ok. Qed.
+Print Assumptions shape_out_lstm.
+
+(* ResNet: padded input convolution, residual blocks that keep the spatial size (replicate padding (k-1)//2 | k//2), linear *)
+Theorem shape_out_resnet : forall s a b,
+  1 <= rs_kernel s -> resnet_forward_shape s a [b; rs_in_ch s; rs_h s; rs_w s] = Some [b; rs_out s].
+Proof. exact resnet_forward_shape_ok. Qed.
+Print Assumptions shape_out_resnet.
 
 (* ======================= non-vacuity ======================= *)
 Example mlp_nonvacuous :
